@@ -8,6 +8,7 @@ import (
 	"errors"
 	"fmt"
 	"os"
+	"path/filepath"
 	"runtime/debug"
 	"sort"
 	"strings"
@@ -474,6 +475,47 @@ func (c *Cluster) Crash(n *SNode, loseCacheDB bool) {
 		c.count("crash.cachelost")
 	}
 	c.count("crash")
+}
+
+// BackupDisk copies the durable directory of a stopped node (the operator's backup).
+func (c *Cluster) BackupDisk(n *SNode) error {
+	if n.Alive {
+		return fmt.Errorf("backup of a running node")
+	}
+	os.RemoveAll(n.Dir + ".backup")
+	return copyTree(n.Dir, n.Dir+".backup")
+}
+
+// RestoreDisk replaces the durable directory of a stopped node by its backup:
+// the node comes back with an older disk image (every later write is lost).
+func (c *Cluster) RestoreDisk(n *SNode) error {
+	if n.Alive {
+		return fmt.Errorf("restore of a running node")
+	}
+	if _, err := os.Stat(n.Dir + ".backup"); err != nil {
+		return err
+	}
+	os.RemoveAll(n.Dir)
+	c.count("disk.restored_from_older_image")
+	return copyTree(n.Dir+".backup", n.Dir)
+}
+
+func copyTree(from, to string) error {
+	return filepath.Walk(from, func(path string, info os.FileInfo, err error) error {
+		if err != nil {
+			return err
+		}
+		rel, _ := filepath.Rel(from, path)
+		dst := filepath.Join(to, rel)
+		if info.IsDir() {
+			return os.MkdirAll(dst, 0755)
+		}
+		b, err := os.ReadFile(path)
+		if err != nil {
+			return err
+		}
+		return os.WriteFile(dst, b, info.Mode())
+	})
 }
 
 // Restart brings a crashed node back from its durable directory.
